@@ -133,7 +133,8 @@ def new_group_class():
             plugin_class = object
 
         def check_plugin(self, ep_name, plugin):
-            pass
+            if getattr(plugin, "vt_refuse_me", False):
+                raise TypeError(f"{ep_name}: refused by the group's checks")
 
     return PGSynth
 
@@ -169,6 +170,22 @@ def check_group(seq, how, probe_versions=VERS):
     except Exception as e:  # noqa: BLE001
         raise Violation(f"C16:group-{tag}:construct-raises", f"{type(e).__name__}: {e}", "group is built")
     _check_answers(g, seq, tag, probe_versions)
+    if how == "ep":
+        # a refused manual registration for an installed (name, version) that was not loaded yet must leave it as it was
+        n0, v0 = seq[-1]
+        info = type("Plugin", (), dict(name=n0, version=v0))
+        bad = _PM("refused", (object,), {"Plugin": info, "vt_refuse_me": True})
+        try:
+            putil.register_in_group(g, bad, violently=True)
+        except TypeError:
+            pass
+        else:
+            raise Violation("C16:group-ep:refused-plugin-registered", f"{n0} {v0}", "TypeError")
+        got = g.get(n0, v0)
+        if got is None or getattr(got, "vt_refuse_me", False):
+            raise Violation("C16:group-ep:refused-registration-replaced-installed-plugin",
+                            f"after the refused registration get({n0!r}, {v0}) -> {got!r}", "the installed plugin of that version")
+        _check_answers(g, seq, tag, probe_versions)
     if how != "ep":
         # registering a (name, version) again (notebook cell run twice) replaces the plugin, it is not listed twice
         n0, v0 = seq[0]
